@@ -17,14 +17,20 @@ def run_chunk(ctx, args):
     res = {"evaluations": 0, "validated": 0, "diffs": 0, "nfail": 0, "findings": [], "brokens": [],
            "classes": collections.Counter(), "families": collections.Counter(), "outcomes": collections.Counter(),
            "distinct": set(), "nontrivial": set(), "samples": [], "gen_paths": 0, "harness_errors": 0,
-           "ran": False}
+           "ran": False, "gp": 0, "gp_ok": 0, "gp_distinct": set(), "gp_sizes": collections.Counter(),
+           "gp_sample": None}
     lines = ctx.harness(args)
     if lines is None:
         return res
     res["ran"] = True
     scen, obs, fam = [], [], []
+    gp_in, gp_real = [], []
     for l in lines:
-        if l.startswith("P "):
+        if l.startswith("GP "):
+            a, _, b = l[3:].partition("\t")
+            gp_in.append(a)
+            gp_real.append(b)
+        elif l.startswith("P "):
             res["findings"].append(("C11:generated-path-outside-managed-folders",
                                     f"the real generator produced {l[2:]} which is not directly inside one of ConfigFolders",
                                     {"path": l[2:]}))
@@ -39,6 +45,41 @@ def run_chunk(ctx, args):
                 obs.append(parts["O"])
                 fam.append(parts.get("F", "?"))
     res["evaluations"] = len(scen)
+    # the generated file SET: Lean `GenPaths.generatedPaths` on the objects of each configuration vs the (path, type)
+    # list the real GeneratorImpl.Generate returned
+    if gp_in:
+        outs = ctx.driver("genpaths", gp_in)
+        for a, real, out in zip(gp_in, gp_real, outs):
+            res["gp"] += 1
+            want = sorted(x for x in real.split("+") if x != "-")
+            got = sorted(x for x in out.split("+") if x != "-")
+            res["gp_distinct"].add(hash(a))
+            res["gp_sizes"][len(want) // 5 * 5] += 1
+            if want == got and out != "bad-op":
+                res["gp_ok"] += 1
+                if res["gp_sample"] is None and len(want) > 12:
+                    res["gp_sample"] = a + " -> " + out
+            else:
+                res["diffs"] += 1
+                if len(res["brokens"]) < 3:
+                    only_real = sorted(set(want) - set(got))
+                    only_model = sorted(set(got) - set(want))
+                    res["brokens"].append((f"generated file set: model and GeneratorImpl.Generate disagree on [{a}]: only real "
+                                           f"{only_real} / only model {only_model}"
+                                           + ("" if only_real or only_model else " (same set, different multiplicity)"),
+                                           {"objects": a, "real": real, "model": out}))
+        # the property on the REAL output, evaluated by the Lean judge: no path twice, every path in a managed folder,
+        # the PEM file of every key pair present, every secret path of secret type
+        verd = ctx.driver("genjudge", [a + " real=" + real for a, real in zip(gp_in, gp_real)])
+        seen_g = set()
+        for a, real, v in zip(gp_in, gp_real, verd):
+            if v != "ok":
+                res["nfail"] += 1
+                clause = v.split(" ")[1] if v.startswith("fail ") else v
+                if clause not in seen_g:
+                    seen_g.add(clause)
+                    res["findings"].append((f"C11:{clause}", f"the set the real GeneratorImpl.Generate returned violates the "
+                                            f"property: {v} (objects: {a})", {"objects": a, "real": real, "verdict": v}))
     # the property itself, evaluated by the Lean judge on the disk the real code left behind
     verdicts = ctx.driver("judge", [m + " obs=" + o for m, o in zip(scen, obs)])
     seen_sig = set()
@@ -98,13 +139,15 @@ def run(ctx):
         par = 1
     elif ctx.tier == "quick":
         # all single faults and all crash points for 20 sequences + 60 random double faults each
-        chunks = [["-replayfile", corpus_file], common + ["-from", 0, "-n", 20, "-doubles", 60, "-maxfiles", 4, "-workers", 8]]
+        chunks = [["-replayfile", corpus_file],
+                  common + ["-from", 0, "-n", 20, "-doubles", 60, "-maxfiles", 4, "-workers", 8, "-gensets", 400]]
         par = 1
     else:
         # all single and ALL double faults (+ crash points) for 200 sequences of 3 sets; the sequences
         # whose sets come from the real generator (8+ files each) get all singles and 1500 doubles each
         chunks = [["-replayfile", corpus_file]] + [common + ["-from", i, "-n", 10, "-doubles", -1, "-gendoubles", 1500, "-maxfiles", 2,
                             "-workers", 4] for i in range(0, 200, 10)]
+        chunks.append(["-seed", ctx.seed, "-n", 0, "-gensets", 20000])
         par = 4
 
     tot = collections.Counter()
@@ -112,13 +155,17 @@ def run(ctx):
     distinct, nontrivial, samples = set(), set(), []
     gen_paths = 0
     ran_any = False
+    gp_distinct, gp_sizes, gp_sample = set(), collections.Counter(), None
     with concurrent.futures.ThreadPoolExecutor(max_workers=par) as ex:
         pending = [ex.submit(run_chunk, ctx, c) for c in chunks]
         for fut in pending:
             r = fut.result()
             ran_any = ran_any or r["ran"]
-            for k in ("evaluations", "validated", "diffs", "nfail", "harness_errors"):
+            for k in ("evaluations", "validated", "diffs", "nfail", "harness_errors", "gp", "gp_ok"):
                 tot[k] += r[k]
+            gp_distinct |= r["gp_distinct"]
+            gp_sizes.update(r["gp_sizes"])
+            gp_sample = gp_sample or r["gp_sample"]
             classes.update(r["classes"])
             families.update(r["families"])
             outcomes.update(r["outcomes"])
@@ -140,6 +187,8 @@ def run(ctx):
         ctx.broken("harness does not build against the current tree", detail="\n".join(ctx.build_errors))
     elif not ran_any or tot["evaluations"] == 0:
         ctx.broken("harness produced no scenario")
+    if ran_any and not ctx.replay_in and tot["gp"] == 0:
+        ctx.broken("the generated-set correspondence did not run (no GP line from the harness)")
     if tot["harness_errors"]:
         ctx.broken(f"{tot['harness_errors']} scenarios could not be set up on disk (harness error)")
 
@@ -158,6 +207,11 @@ def run(ctx):
         "family_histogram": dict(families),
         "step_outcome_histogram": dict(outcomes),
         "real_generator_distinct_paths": gen_paths,
+        "generated_sets_compared_with_model": tot["gp"],
+        "generated_sets_equal": tot["gp_ok"],
+        "generated_sets_distinct_inputs": len(gp_distinct),
+        "generated_set_size_histogram": {f"{k}-{k + 4}": v for k, v in sorted(gp_sizes.items())},
+        "generated_set_sample": gp_sample,
     }, assumptions=[
         "POSIX: create truncates and keeps the mode of an existing file, chmod acts on the open file, a failing write may "
         "leave a prefix, unlink removes; ReadDir lists exactly the entries, sorted by name",
